@@ -1,0 +1,37 @@
+//go:build verif
+
+// Contracts for the deductive verifier in /verif (comment-only file; compiled only with -tags verif).
+package packet
+
+// ---------------------------------------------------------------------------------------------
+// C20: receiver under read faults
+//
+// transient = would-block, connection reset, or a network timeout; broken = closed or broken socket.
+//@ pred transient(err error) = erris(err, asiface(syscall.EAGAIN)) || erris(err, asiface(syscall.ECONNRESET))
+//@      || (implements(err, net.Error) && nettimeout(err))
+//@ pred broken(err error) = err == io.EOF || err == io.ErrUnexpectedEOF || err == io.ErrNoProgress
+//@      || err == io.ErrClosedPipe || err == io.ErrShortBuffer || err == asiface(syscall.EBADF)
+//@      || strcontains(errmsg(err), "use of closed file")
+
+//@ func isTemporaryError
+//@   props C20
+//@   requires err != nil
+//@   ensures ret <==> transient(err)
+
+//@ func isUnrecoverableError
+//@   props C20
+//@   requires err != nil
+//@   ensures ret <==> broken(err)
+
+// Decision table of one iteration of the receive loop (oracle: the statement of C20).
+//@ func (*receiver).ReceivePackets$1
+//@   props C20 C12
+//@   observe ReadPacketData, ProcessPacketData, time.Sleep
+//@   loop 0 row cancel:        [ctxdone ; close errc] -> exit
+//@   loop 0 row frame_ok:      [call ReadPacketData() as (data, ci, err) ; call ProcessPacketData(data, ci) as (perr)] when err == nil && perr == nil -> continue
+//@   loop 0 row frame_perr:    [call ReadPacketData() as (data, ci, err) ; call ProcessPacketData(data, ci) as (perr) ; send errc perr] when err == nil && perr != nil -> continue
+//@   loop 0 row frame_perr_c:  [call ReadPacketData() as (data, ci, err) ; call ProcessPacketData(data, ci) as (perr) ; ctxdone ; close errc] when err == nil && perr != nil -> exit
+//@   loop 0 row transient:     [call ReadPacketData() as (data, ci, err)] when err != nil && transient(err) -> continue
+//@   loop 0 row broken:        [call ReadPacketData() as (data, ci, err) ; close errc] when err != nil && !transient(err) && broken(err) -> exit
+//@   loop 0 row unknown:       [call ReadPacketData() as (data, ci, err) ; send errc err ; call time.Sleep(_)] when err != nil && !transient(err) && !broken(err) -> continue
+//@   loop 0 row unknown_c:     [call ReadPacketData() as (data, ci, err) ; ctxdone ; close errc] when err != nil && !transient(err) && !broken(err) -> exit
